@@ -418,7 +418,7 @@ func trial(c *core.Ctx, id string, cfg fc.Cfg, s sub, rng *rand.Rand, rot int) {
 	layout := fc.Spans(frames, tail, len(s.stream))
 	plan := fc.MakePlan(allPlans[rot%len(allPlans)], rng, len(s.stream), layout, cfg.Kind == fc.Delim)
 	plan.Term = s.term
-	res := fc.Run(fc.Trial{Cfg: cfg, Stream: s.stream, Plan: plan, ReadBuf: pick(rng, []int{1, 7, 512, 4096})})
+	res := fc.Run(fc.Trial{Cfg: cfg, Stream: s.stream, Plan: plan, ReadBuf: pick(rng, []int{1, 7, 512, 4096, -1})})
 	c.Count("streams", 1)
 	c.Count("stream_bytes", int64(len(s.stream)))
 	c.Count("tails_"+tail.Kind, 1)
@@ -580,7 +580,7 @@ walk:
 // a prefix of the reference's complete frames (an exception may end the stream early, nothing else may show up).
 func wrappedTrial(c *core.Ctx, id string, cfg fc.Cfg, s sub, plan fc.Plan, frames []fc.RFrame, rng *rand.Rand) {
 	wv := [][2]int{{64, 0}, {64, 64}, {16, 0}, {4096, 4096}, {1, 0}}[rng.Intn(5)]
-	res := fc.Run(fc.Trial{Cfg: cfg, Stream: s.stream, Plan: plan, ReadBuf: pick(rng, []int{1, 7, 512}), Wrap: &wv, ContentOnly: true, StopAfter: len(frames) + 3})
+	res := fc.Run(fc.Trial{Cfg: cfg, Stream: s.stream, Plan: plan, ReadBuf: pick(rng, []int{1, 7, 512, -1}), Wrap: &wv, ContentOnly: true, StopAfter: len(frames) + 3})
 	if res.BuildErr != "" || res.Watchdog {
 		c.Inconclusive(id, "wrapped trial: watchdog or constructor: "+cfg.String())
 		return
